@@ -248,6 +248,8 @@ func openOpts(mode string) []updog.IndexOption {
 		return nil
 	case "preload":
 		return []updog.IndexOption{updog.WithPreloadedData()}
+	case "cached":
+		return []updog.IndexOption{updog.WithCache(updog.NewLRUCache(1 << 22))}
 	}
 	fatal("unknown mode %q", mode)
 	return nil
